@@ -143,9 +143,27 @@ def reader_rows(p, rd):
                     return (ft[1][1].split(".")[-1], t.attr)
         return None
 
+    # containers created through an intermediate name:  v = C() [under tag == 'x'] ... current_object = v
+    via = {}
+    for _ in range(3):
+        for n in walk_no_nested(rd.node):
+            if isinstance(n, ast.Assign) and len(n.targets) == 1 and isinstance(n.targets[0], ast.Name) and n.targets[0].id != "current_object":
+                cls, tag, ev = context(n)
+                if ev != "start":
+                    continue
+                if isinstance(n.value, ast.Call):
+                    q = p.resolve_name_expr(n.value.func, rd.module)
+                    if q in p.classes and tag:
+                        via.setdefault(n.targets[0].id, set()).add((tag, q.split(".")[-1]))
+                elif isinstance(n.value, ast.Name) and n.value.id in via:
+                    via.setdefault(n.targets[0].id, set()).update(via[n.value.id])
     for n in walk_no_nested(rd.node):
         if isinstance(n, ast.Assign) and len(n.targets) == 1:
             cls, tag, ev = context(n)
+            if ev == "start" and isinstance(n.targets[0], ast.Name) and n.targets[0].id == "current_object" and isinstance(n.value, ast.Name) and n.value.id in via:
+                for tg_, cq_ in sorted(via[n.value.id]):
+                    ctx_of_tag.setdefault(tg_, cq_)
+                continue
             if ev == "start" and isinstance(n.targets[0], ast.Name) and n.targets[0].id == "current_object" and isinstance(n.value, ast.Call) and tag:
                 q = p.resolve_name_expr(n.value.func, rd.module)
                 if q in p.classes:
